@@ -49,6 +49,14 @@ Proof. intros t. split; intros code args h G; discriminate. Qed.
 Example ex3o_stored : forall i, In i [1; 2; 3; 4; 5; 6]%positive -> stored ex_terms (cn ex3o) (RN i).
 Proof. intros i H. simpl in H. repeat (destruct H as [<-|H]; [reflexivity|]). destruct H. Qed.
 
+Example ex3o_state : CInv KBdd ex_terms 3 ex3o /\ bterms_ok ex_terms /\
+  terms_unique_b ex_terms = true /\ COK ex_terms 3 acache ac_get (cn ex3o) [] /\
+  (forall i, In i [1; 2; 3; 4; 5; 6]%positive -> stored ex_terms (cn ex3o) (RN i)).
+Proof.
+  exact (conj ex3o_inv (conj (proj1 ex_terms_ok) (conj (proj2 ex_terms_ok)
+          (conj (proj1 (ex_cache_ok (cn ex3o))) ex3o_stored)))).
+Qed.
+
 (** outcome (0 = result, 1 = out of memory, 2 = stuck), stored nodes, tokens owned,
     result, executable invariant *)
 Definition oout {C} (r : ores C) :=
